@@ -208,7 +208,7 @@ Example rejected_examples :
   p [49;48;48;48;48;47;48;49;47;48;49] = DErr DInvalid (* 10000/01/01 *).
 Proof. vm_compute. repeat split. Qed.
 
-(* ---- finding F20: without a year directive, a year-less date later in the year than today is
+(* ---- finding F32: without a year directive, a year-less date later in the year than today is
    moved to the previous year with boost's end-of-month rule.  The statement "MM/DD always denotes
    that month and day" is FALSE of the faithful model: read on 2021-01-15, `02/28` is 2020-02-29. ---- *)
 Theorem md_now_exact_day_refuted :
